@@ -185,8 +185,52 @@ def normalize_titles(doc):
 
 
 def has_bool_num_confusion(a, b):
-    """do the dumps differ only where one literal has a bool and the other 0/1 (the recorded finding)"""
-    return json.dumps(a, sort_keys=True) != json.dumps(b, sort_keys=True)
+    """do the dumps differ, and only where one literal holds a bool and the other the number equal to it
+    (True/1, False/0, also 1.0 / 0.0) — the region of the recorded finding, whatever mutation produced the pair"""
+    diffs = []
+
+    def num_of(x):
+        if isinstance(x, dict) and set(x) == {"i"}:
+            return int(x["i"])
+        if isinstance(x, dict) and set(x) == {"f"}:
+            n, d = int(x["f"][0]), int(x["f"][1])
+            return n / d if d else None
+        return None
+
+    def walk(p, q):
+        if isinstance(p, bool) or isinstance(q, bool):
+            if isinstance(p, bool) and isinstance(q, bool):
+                if p != q:
+                    diffs.append(False)
+                return
+            other = q if isinstance(p, bool) else p
+            flag = p if isinstance(p, bool) else q
+            n = num_of(other)
+            diffs.append(n is not None and n == (1 if flag else 0))
+            return
+        if type(p) is not type(q):
+            diffs.append(False)
+            return
+        if isinstance(p, dict):
+            if num_of(p) is not None or num_of(q) is not None:
+                if p != q:
+                    diffs.append(False)
+                return
+            if set(p) != set(q):
+                diffs.append(False)
+                return
+            for k in p:
+                walk(p[k], q[k])
+        elif isinstance(p, list):
+            if len(p) != len(q):
+                diffs.append(False)
+                return
+            for u, v in zip(p, q):
+                walk(u, v)
+        elif p != q:
+            diffs.append(False)
+    walk(a, b)
+    return bool(diffs) and all(diffs)
 
 
 def check_pair(drv, da, db, kind, values, out, stats, built=None):
@@ -219,7 +263,7 @@ def check_pair(drv, da, db, kind, values, out, stats, built=None):
         return
     if not real["eq"]:
         return
-    region = "C17-bool-number-literals" if kind in ("lookalike",) else None
+    region = "C17-bool-number-literals" if kind in ("lookalike",) or has_bool_num_confusion(da, db) else None
     for v in values:
         ra, rb = core.real_call(a, v), core.real_call(b, v)
         if ra["r"] in ("ok", "reject") and rb["r"] in ("ok", "reject") and ra["r"] != rb["r"]:
